@@ -97,6 +97,9 @@ type node struct {
 }
 
 func build(o *getoptions.GetOpt, c *CmdDef, path string, ran *string, nodes *[]node) {
+	if c.SelfName != "" && path != "prog" {
+		o.Self(c.SelfName, "self description of "+c.Name)
+	}
 	if c.Unset {
 		o.UnsetOptions()
 	}
@@ -443,6 +446,12 @@ func shrinkCmd(c *CmdDef, emit func()) {
 		emit()
 		c.Unset = true
 	}
+	if c.SelfName != "" {
+		s := c.SelfName
+		c.SelfName = ""
+		emit()
+		c.SelfName = s
+	}
 	if c.RequireOrder {
 		c.RequireOrder = false
 		emit()
@@ -622,6 +631,7 @@ func main() {
 	merge := flag.String("merge", "", "")
 	dump := flag.Int64("dump", -1, "print scenario and its observation")
 	dethash := flag.Int("dethash", 0, "determinism mode")
+	realRuns := flag.Int("realruns", 0, "real-runtime mode (built with -tags passthrough against the uninstrumented tree): native map order, 9 executions per scenario")
 	flag.Parse()
 	if *merge != "" {
 		mergeHashes(*merge)
@@ -653,6 +663,35 @@ func main() {
 			}
 			fmt.Printf("%d %016x %016x\n", idx, scenarioHash(sc), h)
 		}
+		return
+	}
+	if *realRuns > 0 {
+		if !simrt.RealRuntime {
+			fmt.Fprintln(os.Stderr, "-realruns needs a binary built with -tags passthrough")
+			os.Exit(2)
+		}
+		type realOut struct {
+			Runs, Disagreements, Hung int
+			Examples                  []string
+		}
+		var ro realOut
+		for i := 0; i < *realRuns; i++ {
+			idx := uint64(*worker) + uint64(i)*uint64(*workers)
+			sc := Generate(simrt.Mix(*seed, 20, idx))
+			base := observe(sc, Order{Base: "asc"}, nil)
+			ro.Runs++
+			for k := 0; k < 8; k++ {
+				if o := observe(sc, Order{Base: "asc"}, nil); o != base {
+					ro.Disagreements++
+					if len(ro.Examples) < 5 {
+						ro.Examples = append(ro.Examples, fmt.Sprintf("scenario %d: %s", idx, firstDiff(base, o)))
+					}
+					break
+				}
+			}
+		}
+		b, _ := json.Marshal(ro)
+		fmt.Println(string(b))
 		return
 	}
 	w := &WorkerOut{Worker: *worker, Probes: map[string]int{}, Faults: map[string]int{}, Verdicts: map[string]int{}}
